@@ -25,6 +25,8 @@ def violations(lengths):
     v.append(('masked frame', ref.server_frame(1, b'x', mask=b'\x01\x02\x03\x04')))
     v.append(('continuation with nothing to continue', ref.server_frame(0, b'x')))
     v.append(('new data frame inside a fragmented message', ref.server_frame(1, b'a', fin=0) + ref.server_frame(2, b'b')))
+    v.append(('non-final new data frame inside a fragmented message', ref.server_frame(1, b'a', fin=0) + ref.server_frame(1, b'b', fin=0)))
+    v.append(('non-final binary frame inside a fragmented text message, after a Pong', ref.server_frame(1, b'a', fin=0) + ref.server_frame(0, b'b', fin=0) + ref.server_frame(2, b'c', fin=0)))
     v.append(('length with the top bit set', bytes([0x82, 127]) + struct.pack('!Q', 1 << 63)))
     v.append(('1-byte close payload', ref.server_frame(8, b'\x03')))
     for code in (0, 999, 1004, 1005, 1006, 1015, 1016, 2999):
